@@ -15,6 +15,7 @@ import CE.Rules.Spec
 import CE.Rules.Measure
 import CE.Cte.ArrFmt
 import CE.Cte.Lit
+import CE.Cte.ArrEngine
 /-
   Line-protocol driver: executes the model's definitions on the operations the Go
   harness ran on the implementation.  Input line:  kind \t id \t op \t arg... \t => \t expected
@@ -348,8 +349,27 @@ def litStr (args : List String) : String :=
         | none => "ERR"
   | _ => "BADINPUT"
 
+/-- CTE.ENGINE kind fmt data-events(hex, comma separated; - = empty) → the array text: the engine
+    model turns the data events into elements, the format model writes them -/
+def cteEngine (args : List String) : String :=
+  match args with
+  | [k, f, ds] =>
+    match Cte.ArrFmt.Kind.ofName k, Cte.ArrFmt.Fmt.ofName f with
+    | some k, some f =>
+      if k.isFloat then "UNMODELLED" else
+      let parts := if ds == "" then [] else ds.splitOn ","
+      match parts.mapM (fun p => if p == "-" then some [] else Hex.decode p) with
+      | none => "BADINPUT"
+      | some datas =>
+        let w := k.bits / 8
+        let st := if w = 1 then ({ out := datas.flatten.map (fun b => [b]), leftover := [] } : Cte.ArrEngine.St)
+                  else Cte.ArrEngine.feed w datas
+        Cte.ArrFmt.printArray k f (st.out.map leNat)
+    | _, _ => "BADINPUT"
+  | _ => "BADINPUT"
+
 def ops : List (String × (List String → String)) :=
-  [("CBE.ENC", cbeEnc), ("CBE.DEC", cbeDec), ("CANON.EQ", canonEq), ("RULES", rulesOp), ("WF.REL", wfRel), ("FWD.EQ", fwdEq), ("MEASURE", measureOp), ("CBE.MINLEN", minLenOp), ("API.DETECT", apiDetect), ("API.VERSION", apiVersion), ("READER.ALL", readerAll), ("READER.FAULT", readerFault), ("TREE.EQ", treeEq), ("ARR.TOLE", arrToLE), ("ARR.FROMLE", arrFromLE), ("CONV", convOp), ("CTE.ARRFMT", cteArrFmt), ("CTE.ARRPARSE", cteArrParse), ("LIT.NUM", litNum), ("LIT.ELEM", litElem), ("LIT.STR", litStr)]
+  [("CBE.ENC", cbeEnc), ("CBE.DEC", cbeDec), ("CANON.EQ", canonEq), ("RULES", rulesOp), ("WF.REL", wfRel), ("FWD.EQ", fwdEq), ("MEASURE", measureOp), ("CBE.MINLEN", minLenOp), ("API.DETECT", apiDetect), ("API.VERSION", apiVersion), ("READER.ALL", readerAll), ("READER.FAULT", readerFault), ("TREE.EQ", treeEq), ("ARR.TOLE", arrToLE), ("ARR.FROMLE", arrFromLE), ("CONV", convOp), ("CTE.ARRFMT", cteArrFmt), ("CTE.ARRPARSE", cteArrParse), ("CTE.ENGINE", cteEngine), ("LIT.NUM", litNum), ("LIT.ELEM", litElem), ("LIT.STR", litStr)]
 
 def splitArrow : List String → List String × String
   | [] => ([], "")
